@@ -245,6 +245,27 @@ theorem pt_toggles_iff_negotiated (c : LayerCfg) (capable : Nat) :
 theorem pt_no_atomic_trunc (c : LayerCfg) (capable : Nat) : (ptInit c capable).1.testBit 3 = false :=
   (ptOpts_bits _ _ _ _ _).2.2.2.2.2
 
+/-- **Overlay**: no-open / no-opendir / writeback / kill-priv exactly as the passthrough; per-file
+    DAX is on exactly when the configuration asks for it and the bit is offered, and the option
+    word carries the bit exactly then. -/
+theorem ovl_toggles_iff_negotiated (c : LayerCfg) (capable : Nat) :
+    ((ovlInit c capable).2.noOpen = (ptInit c capable).2.noOpen) ∧
+    ((ovlInit c capable).2.noOpendir = (ptInit c capable).2.noOpendir) ∧
+    ((ovlInit c capable).2.writeback = (ptInit c capable).2.writeback) ∧
+    ((ovlInit c capable).2.killprivV2 = (ptInit c capable).2.killprivV2) ∧
+    ((ovlInit c capable).2.perfileDax = (c.perfileDax && capable.testBit 33)) ∧
+    ((ovlInit c capable).1.testBit 33 = (ovlInit c capable).2.perfileDax) := by
+  unfold ovlInit
+  simp only [DAX_pow, has_pow]
+  refine ⟨trivial, trivial, trivial, trivial, trivial, ?_⟩
+  cases hd : (c.perfileDax && capable.testBit 33)
+  · simp only [Bool.false_eq_true, if_false]
+    rw [without_bit _ _ _ (by decide)]
+    simp
+  · simp only [if_true]
+    rw [Nat.testBit_or, Nat.testBit_two_pow]
+    simp
+
 end Layers
 
 end Fbr.Thm.C12
